@@ -162,6 +162,27 @@ class Exec:
                 self.ledger.resolver_touched(conflict_region_lines(old))
                 w.raw_git(repo, "add", "--", p)
             res["code"] = 0
+        elif kind == "setup_remote":
+            # a bare remote next to the repository, seeded from the current branch (plain git)
+            remote = os.path.join(w.root, "remote.git")
+            os.makedirs(remote, exist_ok=True)
+            w.raw_git(remote, "init", "-q", "--bare", "-b", "main")
+            w.raw_git(repo, "remote", "add", "origin", remote)
+            r = w.raw_git(repo, "push", "-q", "-u", "origin", "main")
+            res.update(code=r.code, err=r.err[-300:])
+        elif kind == "remote_commit":
+            # somebody else pushes a commit to the remote (plain git, throw-away clone)
+            remote = os.path.join(w.root, "remote.git")
+            tmp = os.path.join(w.root, "other-clone")
+            if not os.path.isdir(tmp):
+                w.raw_git(w.root, "clone", "-q", remote, tmp)
+            w.raw_git(tmp, "pull", "-q", "--ff-only", "origin", "main")
+            w.write(tmp, op["path"], op["content"])
+            self.ledger.edit("", op["content"], HUMAN)
+            w.raw_git(tmp, "add", "-A")
+            w.raw_git(tmp, "commit", "-q", "-m", op.get("msg", "upstream"))
+            r = w.raw_git(tmp, "push", "-q", "origin", "main")
+            res.update(code=r.code, err=r.err[-300:])
         elif kind == "bulk_notes":
             # a large pre-existing notes ref (two fan-out levels), built in one fast-import
             n = op.get("n", 70001)
